@@ -38,6 +38,26 @@ def run_config(ctx, config):
             ctx.ob("output-type", inst, o == out, "Output is %s, expected %s" % (o, out), imp["span"])
             opforms.body_form(ctx, "scalar-op", inst, U, imp, opforms.OPFN[op], want)
             cnt += 1
+        # borrowed-operand variants (&q * k, k * &q, &q / k, ...), should the tree have any: each must compute what
+        # the by-value operator of the same operand pair computes (forwarding calls are looked through)
+        byval = {(op, s_, r_): (want, label) for op, s_, r_, _out, want, label in forms}
+        inl = set()
+        for (op, s_, r_, _o, imp) in U.op_impls(q.crate):
+            if (op, s_, r_) in byval:
+                it = U.impl_item(imp, opforms.OPFN[op])
+                if it is not None:
+                    inl.add(it["path"] + "!")
+        for (op, s_, r_, o, imp) in U.op_impls(q.crate):
+            ss, rs = s_.lstrip("&"), r_.lstrip("&")
+            if (s_, r_) == (ss, rs) or not ({ss, rs} & {Q, UQ}) or not ({ss, rs} <= {Q, UQ, amt}) or amt not in (ss, rs) or o != Q:
+                continue   # (an operator with another result type, e.g. AmountT / Duration -> Frequency, is a derived operator: C04 / C06)
+            inst = "%s/%s/%s %s %s" % (config, Q, s_, op, r_)
+            if (op, ss, rs) not in byval:
+                ctx.fail("scalar-ref-op", inst, "operator between a borrowed quantity / unit and a number without a by-value counterpart", imp["span"])
+                continue
+            want, label = byval[(op, ss, rs)]
+            ctx.ob("output-type", inst, o == Q, "Output is %s, expected %s" % (o, Q), imp["span"])
+            opforms.body_form(ctx, "scalar-ref-op", inst, U, imp, opforms.OPFN[op], want, inline=inl)
     ctx.floor("%s: scalar/unit operator impls" % config, cnt, 5 * (18 if config == "f64-all" else 14))
     # dimensionless amount
     dim = [q for q in w.qtypes if q.kind == "dimless"]
